@@ -19,8 +19,8 @@ from .. import units, guards, effects
 
 MANIFEST = {
     "level": "other",
-    "technique": "static analysis: symbolic evaluation and term matching for the anomaly relations, polynomial normal form for the vis-viva / phase / node-passage identities with numeric constant relations checked to a stated tolerance, interval bound of both orbit-length closed forms against the AGM value of the elliptic integral, unit inference",
-    "text": "The closed-form relations of the property (true anomaly, reciprocal factor in the node passage, vis-viva products, k = (1 + cos i)/2, Kepler's equation and radius in the node passage, Barker's constant) are decided symbolically for all inputs. Convergence and the 5e-8 degree residual of the bisection, the half-revolution clause at runtime, are numerical and not decided; the orbit length is decided as far as both closed forms staying within [2 pi b, 2 pi a] and within 1e-4 of the elliptic integral up to the switch.",
+    "technique": "static analysis: symbolic evaluation and term matching for the anomaly relations, polynomial normal form for the vis-viva / phase / node-passage identities with numeric constant relations checked to a stated tolerance, decision table of the mean-anomaly reduction on every linear piece (sign factor of E and anomaly handed to the solver), refusal conditions executed on every class of (e, a) inside the domain, interval bound of both orbit-length closed forms against the AGM value of the elliptic integral, unit inference",
+    "text": "The closed-form relations of the property (true anomaly, reciprocal factor in the node passage, vis-viva products, k = (1 + cos i)/2, Kepler's equation and radius in the node passage, Barker's constant) are decided symbolically for all inputs. The mean anomaly is shown to be reduced modulo 2 pi and folded to [0, pi] with E = +-e0 accordingly for either sign of M and any number of turns, and no closed-form routine refuses arguments inside the domain (circular orbit included). Convergence and the 5e-8 degree residual of the bisection, the half-revolution clause at runtime, are numerical and not decided; the orbit length is decided as far as both closed forms staying within [2 pi b, 2 pi a] and within 1e-4 of the elliptic integral up to the switch.",
     "note": "Trusted: term/polynomial engine; Gaussian constant k = 0.01720209895 (0.9856076686 deg/day). Undecided: convergence/residual of the Sinnott bisection, orbit length bounds and continuity at e = 0.95.",
 }
 MOD = "Coordinates"
@@ -307,15 +307,10 @@ def anomaly_fold(rep, site, Er):
                                                 "and any number of turns (%d pieces)" % n, obligation=True)
 
 
-def run(repo, rep, tier):
-    rep.decided = ["D1 true-anomaly relation and its reciprocal", "D2 vis-viva identities", "D3 k == (1 + cos i)/2",
-                   "D4 node-passage relations (elliptic and parabolic)", "D5 sign bookkeeping of the anomaly reduction; radians"]
-    rep.undecided = ["convergence and 5e-8 deg residual of the bisection", "half-revolution clause at runtime"]
-    rep.decided.append("D6 orbit length: both closed forms within [2 pi b, 2 pi a], accurate to 1e-4 up to and at the switch (jump <= 2e-4)")
-    rep.assumptions = ["exact real arithmetic"]
+def kepler_rules(repo, rep):
+    """D1 / D5 (also used by C07, whose 'through Kepler's equation' clause rests on this solver): true anomaly from the returned
+    eccentric anomaly, reduction of the mean anomaly and sign bookkeeping"""
     rep.rule("R-E4-ID", "algebraic identity / term match")
-    alg = Algebra()
-    # ---- D1 / D5 kepler_equation
     q = "kepler_equation"
     rep.fn(MOD, q)
     fn = repo.func(MOD, q)
@@ -347,6 +342,18 @@ def run(repo, rep, tier):
             rep.violation("R-E4-ID", site, "true-anomaly", "true anomaly is not 2*atan(sqrt((1+e)/(1-e))*tan(E/2)) of the returned eccentric anomaly", obligation=True)
         # D5: reduction of the mean anomaly and sign bookkeeping
         anomaly_fold(rep, site, Er)
+
+
+def run(repo, rep, tier):
+    rep.decided = ["D1 true-anomaly relation and its reciprocal", "D2 vis-viva identities", "D3 k == (1 + cos i)/2",
+                   "D4 node-passage relations (elliptic and parabolic)", "D5 sign bookkeeping of the anomaly reduction; radians"]
+    rep.undecided = ["convergence and 5e-8 deg residual of the bisection", "half-revolution clause at runtime"]
+    rep.decided.append("D6 orbit length: both closed forms within [2 pi b, 2 pi a], accurate to 1e-4 up to and at the switch (jump <= 2e-4)")
+    rep.assumptions = ["exact real arithmetic"]
+    rep.rule("R-E4-ID", "algebraic identity / term match")
+    alg = Algebra()
+    # ---- D1 / D5 kepler_equation
+    kepler_rules(repo, rep)
     # ---- D2 vis-viva
     for f_ in ("velocity", "velocity_perihelion", "velocity_aphelion"):
         rep.fn(MOD, f_)
